@@ -186,8 +186,21 @@ func c05Run(c fw.Case, env *fw.Env) fw.Result {
 		// every packet a reconnecting client writes in faulty runs (retransmissions with DUP, PUBREL, PUBACK/PUBREC/
 		// PUBCOMP for inbound traffic, re-subscriptions, DISCONNECT) decodes strictly; the stream can always be framed
 		wl := []string{"mixed", "preset", "in1", "subs5", "q2mix", "outage", "subs1", "q2sub"}
-		for i := 0; i < p.N; i++ {
-			rp := retryParams{W: wl[(i+p.Part)%len(wl)], Cfg: scen.BrokerCfg{Method: []string{"A", "B"}[i%2], Session: []string{"keep", "lose"}[(i/2)%2], Echo: i%3 == 0, Grant: []string{"", "low"}[(i/4)%2]}, Always: i%5 == 0, Chunk: []int{0, 1, 3}[i%3], Client: []string{"", "", "retry"}[i%3], Mode: "random", N: 1}
+		// systematic part (every single cut of 4 kinds at every request packet): caller-set ids/flags incl. retained
+		// messages ("preset"), and subscriptions against a broker that grants less and forgets the session
+		systematic := []retryParams{
+			{W: "preset", Cfg: scen.BrokerCfg{Method: "A", Session: "keep"}, Mode: "single"},
+			{W: "subs5", Cfg: scen.BrokerCfg{Method: "A", Session: "lose", Grant: "low"}, Mode: "single"},
+			{W: "preset", Cfg: scen.BrokerCfg{Method: "B", Session: "lose"}, Client: "retry", Mode: "single"},
+			{W: "resub", Cfg: scen.BrokerCfg{Method: "A", Session: "lose", Grant: "low"}, Always: true, Mode: "single"},
+		}
+		for i := -1; i < p.N; i++ {
+			var rp retryParams
+			if i < 0 {
+				rp = systematic[p.Part%len(systematic)]
+			} else {
+				rp = retryParams{W: wl[(i+p.Part)%len(wl)], Cfg: scen.BrokerCfg{Method: []string{"A", "B"}[i%2], Session: []string{"keep", "lose"}[(i/2)%2], Echo: i%3 == 0, Grant: []string{"", "low"}[(i/4)%2]}, Always: i%5 == 0, Chunk: []int{0, 1, 3}[i%3], Client: []string{"", "", "retry"}[i%3], Mode: "random", N: 1}
+			}
 			for _, sc := range rp.scenarios(rng) {
 				sc := sc
 				run := scen.Exec(&sc)
